@@ -2,6 +2,7 @@
 //! the monitors of one property. Links no walrus code.
 
 mod basic;
+mod buildjudge;
 mod cfgjudge;
 mod ctjudge;
 mod dwarfjudge;
@@ -120,8 +121,10 @@ fn main() {
                 "C20" => basic::c20(c, &mut rep),
                 "C03" | "C04" => structural::run(c, &mut rep, &prop),
                 "C01" => exec::c01(c, &mut rep, seed),
+                "C18" => exec::c18(c, &mut rep, seed),
                 "C14" => cfgjudge::run(c, &mut rep),
                 "C17" => histjudge::run(c, &mut rep),
+                "C15" => buildjudge::run(c, &mut rep),
                 "C16" => visitjudge::run(c, &mut rep),
                 "C11" => ctjudge::run(c, &mut rep),
                 "C10" => dwarfjudge::run(c, &mut rep),
